@@ -48,7 +48,7 @@ def build_plans(gen, rng, nplans):
     p0 = gen.problem
     init = gen.initial_valuation()
     plans, execs = [], []
-    for _ in range(nplans * 2):
+    for _ in range(nplans + nplans // 2):
         n = rng.choice([1, 2, 2, 3, 3, 4])
         steps, ok, res_ok = [], True, None
         for _k in range(n):
@@ -122,6 +122,32 @@ def mutate(gen, rng, steps):
     return steps
 
 
+def edge_variants(gen, rng, steps):
+    """variants of a plan in which one durative step gets a duration exactly on a bound of its duration interval (the
+    bounds are estimated in the initial valuation): VALID or not depending only on the openness of that bound"""
+    out = []
+    init = gen.initial_valuation()
+    for i, (t, ai, d) in enumerate(steps):
+        if d is None:
+            continue
+        a = ai.action
+        subs = dict(zip(a.parameters, ai.actual_parameters))
+        for bound in (a.duration.lower, a.duration.upper):
+            try:
+                y = bound.substitute(subs).substitute(init).simplify()
+            except Exception:  # noqa
+                continue
+            if not y.is_constant():
+                continue
+            b = F(y.constant_value())
+            if b >= 0 and b != d:
+                v = list(steps)
+                v[i] = (t, ai, b)
+                out.append(v)
+    rng.shuffle(out)
+    return out
+
+
 def classify(rec, code):
     tags = ["c05", "impl-valid" if rec["valid"] else "impl-invalid"]
     if code & 4:
@@ -162,6 +188,10 @@ def run(ctx):
             final.append(s)
         for s in pool[:nplans // 4]:
             final.append(mutate(gen, rng, s))
+        edges = []
+        for s in pool[:6]:
+            edges += edge_variants(gen, rng, s)[:2]
+        final += edges[:4]
         rest = [s for s in plans if s not in final]
         rng.shuffle(rest)
         final += rest[:max(0, nplans - len(final) - 1)]
